@@ -3,7 +3,7 @@ CFG = {'streams': [{'name': 'C04',
               'n_quick': 200,
               'n_thorough': 2000,
               'thorough_seeds': 2,
-              'what_fails': 'scoped-variable programs: model vs implementation in strict (codes 1-7) or lazy (100+code) mode; 92 two syntax nodes '
+              'what_fails': 'scoped-variable programs: model vs implementation in strict (codes 1-7) or lazy (100+code) mode; 95 the recorded strict and merged matches are not related as assumptions A1-A3 say (idx_agreeb); 92 two syntax nodes '
                             'share a truncated id (KeyInjective fails); 93 Node::parent disagrees with the cursor walk'}],
  'rule': 'programs composed from scoped-variable idioms (definition on one capture, read through another capture / list element / nested scope '
          '@n.owner.k, inherit declared or not, duplicate definition on one node, lookup on a node lacking the variable) in random stanza order x '
